@@ -1164,6 +1164,11 @@ impl<T: TraceStorage> ChainProcess<T> {
                         Ok(ChainCommand::Resume) => {}
                     }
 
+                    if draw == draws {
+                        // Nothing (more) to draw, e.g. num_tune + num_draws == 0.
+                        break;
+                    }
+
                     let now = Instant::now();
                     let (_point, mut draw_data, mut stats, info) = sampler.expanded_draw()?;
 
